@@ -93,6 +93,8 @@ def pyslice(s, lo, hi, prover=None):
 
 
 def norm_index(i, n):
+    if z3.is_int_value(i):
+        return i if i.as_long() >= 0 else i + n
     return z3.If(i < 0, i + n, i)
 
 
@@ -101,6 +103,7 @@ occ = z3.Function("occ", Bytes, Bytes, I, Bo)  # p occurs in s at j (whole)
 pm = z3.Function("pm", Bytes, Bytes, I, Bo)  # s[j:] starts with p, or is a proper prefix of p (partial match)
 first = z3.Function("first", Bytes, Bytes, I)  # first occurrence index or -1
 flat = z3.Function("flat", BytesSeq, Bytes)  # concatenation of a sequence of byte strings
+tl = z3.Function("tl", BytesSeq, BytesSeq)  # tail of a non-empty sequence of byte strings
 rk = z3.Function("rk", Bytes, I, Bytes, I)  # resynchronisation index: least j >= c with j == |B| or pm(B, p, j)
 Resync = z3.Function("Resync", Bytes, I, Bytes, Bytes)  # what LimitOverrunError keeps as remaining_data
 
@@ -224,6 +227,20 @@ AXIOMS: dict[str, z3.ExprRef] = {
         ),
         patterns=[Resync(_s, _j, _p)],
     ),
+    "tl-def": z3.ForAll(
+        [_bs],
+        z3.Implies(L(_bs) >= 1, z3.And(_bs == z3.Concat(z3.Unit(_bs[0]), tl(_bs)), L(tl(_bs)) == L(_bs) - 1)),
+        patterns=[tl(_bs)],
+    ),
+    # consequence of flat-concat and s == s[:k] ++ s[k:]
+    "flat-prefix": z3.ForAll(
+        [_bs, _k],
+        z3.Implies(
+            z3.And(0 <= _k, _k <= L(_bs)),
+            flat(_bs) == z3.Concat(flat(z3.SubSeq(_bs, 0, _k)), flat(z3.SubSeq(_bs, _k, L(_bs) - _k))),
+        ),
+        patterns=[flat(z3.SubSeq(_bs, 0, _k))],
+    ),
     "flat-empty": flat(z3.Empty(BytesSeq)) == EMPTY,
     "flat-unit": z3.ForAll([_s], flat(z3.Unit(_s)) == _s, patterns=[flat(z3.Unit(_s))]),
     "flat-concat": z3.ForAll(
@@ -255,10 +272,26 @@ def lemma_goals() -> dict[str, z3.ExprRef]:
     }
 
 
+def flat_app(x):
+    """flat(x) with the defining equations applied structurally (flat over ++, unit and empty), so that proofs do not
+    depend on quantifier instantiation for terms built by the program."""
+    if z3.is_app(x):
+        k = x.decl().kind()
+        if k == z3.Z3_OP_SEQ_CONCAT:
+            parts = [flat_app(c) for c in x.children()]
+            return z3.Concat(*parts) if len(parts) > 1 else parts[0]
+        if k == z3.Z3_OP_SEQ_UNIT:
+            return x.arg(0)
+        if k == z3.Z3_OP_SEQ_EMPTY:
+            return EMPTY
+    return flat(x)
+
+
 def axioms_for(formulas) -> list[z3.ExprRef]:
     """Relevance filter: only the axioms whose head symbols occur in the query."""
     names = set()
     seen = set()
+    flags = {"flat_of_extract": False}
 
     def walk(e):
         stack = [e]
@@ -277,6 +310,8 @@ def axioms_for(formulas) -> list[z3.ExprRef]:
                 d = x.decl()
                 if d.kind() == z3.Z3_OP_UNINTERPRETED and x.num_args() > 0:
                     names.add(d.name())
+                    if d.name() == "flat" and z3.is_app(x.arg(0)) and x.arg(0).decl().kind() == z3.Z3_OP_SEQ_EXTRACT:
+                        flags["flat_of_extract"] = True
                 stack.extend(x.children())
 
     for f in formulas:
@@ -298,6 +333,10 @@ def axioms_for(formulas) -> list[z3.ExprRef]:
             out.append(AXIOMS["L-occ-pm"])
     if "pm" in names:
         out.append(AXIOMS["pm-def"])
+    if "tl" in names:
+        out.append(AXIOMS["tl-def"])
     if "flat" in names:
         out += [AXIOMS["flat-empty"], AXIOMS["flat-unit"], AXIOMS["flat-concat"]]
+        if flags["flat_of_extract"]:
+            out.append(AXIOMS["flat-prefix"])
     return out
